@@ -926,7 +926,7 @@
 
   <!-- left trim the first text node just after a br in a remark to prevent interfering with indents -->
   <xsl:template match="a:remark/text()[preceding-sibling::a:*[1][self::a:br]]">
-    <xsl:call-template name="escape-inlines">
+    <xsl:call-template name="escape-inlines-start-end">
       <xsl:with-param name="text">
         <xsl:call-template name="string-ltrim">
           <xsl:with-param name="text" select="." />
